@@ -759,6 +759,23 @@ def add_zoo(w, parts=ZOO_ALL):
                 else:
                     ex = [(3001, 3800 - 2 * k)]
                     w.make_read(cname, ex, polyt=30, flag=16, truth={"class": "unspliced-tailed-read-on-bare-sequence"})
+        # a short sequence whose genes touch both of its ends: first exon from base 3, last exon up to the last base but two
+        w.add_chrom("chrS", 7000)
+        for gid, st_, exons in (("ZS1", "+", [(3, 300), (701, 900), (1401, 1700), (2301, 2600)]),
+                                ("ZS2", "-", [(4001, 4300), (4801, 5000), (5601, 5900), (6601, 6998)])):
+            g = Gene(gid, "chrS", st_)
+            g.transcripts.append(Transcript(gid + ".t1", gid, "chrS", st_, exons, True, "edge-of-sequence"))
+            g.hidden.append(Transcript(gid + ".h1", gid, "chrS", st_, [exons[0], exons[2], exons[3]], False, "edge-of-sequence-novel"))
+            for t in g.transcripts + g.hidden:
+                for intr in t.introns:
+                    w.plant_sites("chrS", intr, st_)
+            w.genes.append(g)
+            _reads_for(w, g, n_ann=5, n_hidden=7, modes=("full",))
+            for k in range(3):
+                # one junction 9 bp off: canonical only by chance
+                ex = [exons[0], (exons[1][0], exons[1][1] - 9), exons[2], exons[3]]
+                w.make_read("chrS", ex, polya=25 if st_ == "+" else 0, polyt=25 if st_ == "-" else 0, flag=0 if st_ == "+" else 16,
+                            truth={"class": "edge-of-sequence-odd-junction"})
         placed.add("odd_chroms")
         chroms_for_loci = w.chrom_order[:n_before]
     else:
